@@ -7,3 +7,12 @@ chk("C01", "engine-I", "exploration",
     "Every state point of a completed small-scope universe (full atom product over flat mappings; every container shape up to the node bound with a focus leaf over all 18 atoms) in every key order / list-tuple / dict-OrderedDict-synced spelling hashes to md5 of an independently written canonical JSON; ids are injective on typed-different values; init/reopen round trip and three interpreter sessions agree.",
     "Trusted: vlib/canon.py (canonical JSON written from the JSON grammar), hashlib.md5. Values outside the alphabet (other floats, longer strings, depth > 3) are not covered.",
     "bounded-exhaustive input enumeration (small-scope model checking of a pure function) against a reference implementation", "DESIGN.md section 6 C01")
+ENGINES[0]["serves_properties"] = ["C01", "C06", "C18"]
+chk("C06", "engine-I", "exploration",
+    "Every filter of the documented grammar up to depth 3 (all atoms: 4 key paths x 13 operators x ~12 arguments; all depth-2 combinations of a 30-atom set; all depth-3 structures of an 8-atom set) is run on every 1-job and every ordered 2-job corpus of a colliding value universe at the _SearchIndexer seam, and through Project.find_jobs on 15 on-disk corpora; results must equal a per-job reference evaluator, the set algebra of $not/$and/$or on the implementation's own results, and the 1-job-corpus verdict of each job (locality).",
+    "Trusted: vlib/refmodels/query.py (per-job evaluator, Python == equality). Corpora above 2 jobs (3 in thorough for colliding values) at the seam and values outside the universe are not covered; ill-typed ordering pairs are skipped and counted.",
+    "bounded-exhaustive enumeration of (filter, corpus) pairs against a reference model + differential set-algebra/locality oracles", "DESIGN.md section 6 C06")
+chk("C18", "engine-I", "exploration",
+    "detect_schema (x exclude_const x every sub-selection given as ids and as Job objects) and diff_jobs (every sub-selection, every order) on every corpus of <=4 (quick) / <=5 (thorough) jobs from a 16-state-point universe built to collide (1/1.0/True/'1', -2/-2.0, scalar-vs-mapping key, partial keys) must equal reference summaries computed from the flattened state points.",
+    "Trusted: reference schema/diff in vlib/checks/c18.py, canon.tagged for type-exact value identity. Corpora above the bound and empty-mapping values are not covered.",
+    "bounded-exhaustive corpus enumeration against a reference model", "DESIGN.md section 6 C18")
